@@ -134,7 +134,7 @@ def main():
                     bad.append((x, "well-formed request was not delivered to the application"))
                 else:
                     jl.append(l); jx.append(x)
-        rc, jout, jerr = c.run_lines(model, jl, timeout=3000)
+        rc, jout, jerr = c.run_lines(model, jl, timeout=3000) if jl else (0, [], "")
         for x, o in zip(jx, jout):
             if o != "1":
                 bad.append((x, "application did not observe the request the peer encoded (Spec.viewOk false)"))
